@@ -143,6 +143,7 @@ pub struct Call {
     pub faulted: bool,
     pub wait_part: Option<usize>,
     pub pay_id: Option<u64>,
+    pub reply_log: Option<String>,
 }
 
 #[derive(Clone, Debug, Default)]
@@ -392,6 +393,7 @@ impl World {
             faulted: false,
             wait_part: None,
             pay_id: None,
+            reply_log: None,
         };
         self.calls.push(call);
         let idx = self.calls.len() - 1;
